@@ -107,4 +107,12 @@ def pfsLoopLog (c : Cfg K E) (prio : K → Int) :
 def swapStore (s : Store K E) : Store K E :=
   ⟨s.cells.map (fun p => (p.1, { out := p.2.inn, inn := p.2.out }))⟩
 
+/-- `Edge` comparison as the code has it. digraph: `==` compares the two endpoints (node equality is key equality)
+    and ignores the value; ungraph / sync_ungraph: `==` compares the values and ignores the endpoints; in all
+    three `cmp`, `partial_cmp`, `<` compare the values. (sync_digraph has no `Edge` comparison. In digraph `==`
+    is therefore not the equivalence of the order - recorded in DESIGN.md as an observation, no property covers it.) -/
+def edgeEq (directed : Bool) (a b : K × K × Int) : Bool :=
+  if directed then a.1 = b.1 && a.2.1 = b.2.1 else a.2.2 = b.2.2
+def edgeCmp (a b : K × K × Int) : Ordering := compare a.2.2 b.2.2
+
 end G
